@@ -167,7 +167,13 @@ func checkSpans(src string, toks []lexer.Token) []spanFail {
 			text = strings.ReplaceAll(stripBlanks(text), "　", "")
 		}
 		if literalChecked(cl, text) && t.Literal() != text {
-			add(spanFail{"literal", i, cl, s, fmt.Sprintf("token #%d %s literal %q but source[%d:%d] = %q", i, cl, clip(t.Literal()), s, e, clip(text))})
+			lcl := cl
+			if cl == "identifier" && strings.HasPrefix(text, "\\") && strings.Contains(text, "?>") {
+				// the name after a leading separator is looked for beyond a close tag ("<?php\\?>a<?php" gives
+				// the identifier \a spanning "\\?>a"): its own key, so that the listed finding masks nothing else
+				lcl = "qualified-name-across-close-tag"
+			}
+			add(spanFail{"literal", i, lcl, s, fmt.Sprintf("token #%d %s literal %q but source[%d:%d] = %q", i, cl, clip(t.Literal()), s, e, clip(text))})
 		}
 		if ct, ok := t.(childTok); ok {
 			lo, hi := t.Line(), t.Line()+strings.Count(text, "\n")
